@@ -9,7 +9,7 @@ import (
 
 func init() {
 	register("C05", runC05, propMeta{
-		Explanation: "Decides, for every goroutine interleaving, the barrier shape of the mix, inverse-mix and N-M models: (B1, rule A4) every go statement starts a literal that executes exactly one rule — the per-iteration copy of the element of the loop that starts it — and reaches Done() once on all paths; one Add(n) precedes the fan-out with n equal, as a symbolic linear form over len() and the parameters, to the number of goroutines started; Wait() lies on every path from the fan-out to any return, later rule execution, later fan-out or read of the error list; appends to the shared error list inside goroutines hold the local mutex; (B2) in mix the first rule runs synchronously before the fan-out over rules[1:], its failure returns before any goroutine starts, in inverse-mix the fan-out covers rules[:len-1], is joined, a collected error returns, and only then rules[len-1] runs; (B3) N-M windows are S[0:n) and S[n:n+m) of the same list, guarded by n>0, m>0, n+m<=len(S) (== len(names) for selected); (B4) sorted stages obey the A3 loop discipline with the function's flag, and after a concurrent first stage `!flag && errors -> return` dominates stage two; (B5) sorted stages range a sorted source; collected errors surface. The argument uses only the WaitGroup contract and program order, so it holds under every schedule. Not decided: fairness, timing. In every goroutine of a concurrent stage no path from its entry to its end avoids the call that runs its rule (worker-on-every-path). The pool's mix / inverse / N-M methods call the engine method of their own name with their own arguments, each in its place: the stage sizes N and M are not swapped on the way (B7). (B8) the binary search that keeps the container's list sorted under incremental updates returns (insertion point, 0) on a miss. (B9) RuleEntity.Execute turns a panic of the rule body into its named error result: a faulting rule fails. The list the windows are cut from holds every loaded rule once only if both copies of the incremental merge keep list, name map and index in step (the merge model of C08-H2..H5, armed under B8). A removal installs a fresh, re-sorted list and never filters the published one in place (the full-build-and-removal rule of C04-O2, armed under B8). (B10) the pool's dispatchers by execution model call the engine method of the model asked for, whatever the number of rules.",
+		Explanation: "Decides, for every goroutine interleaving, the barrier shape of the mix, inverse-mix and N-M models: (B1, rule A4) every go statement starts a literal that executes exactly one rule — the per-iteration copy of the element of the loop that starts it — and reaches Done() once on all paths; one Add(n) precedes the fan-out with n equal, as a symbolic linear form over len() and the parameters, to the number of goroutines started; Wait() lies on every path from the fan-out to any return, later rule execution, later fan-out or read of the error list; appends to the shared error list inside goroutines hold the local mutex; (B2) in mix the first rule runs synchronously before the fan-out over rules[1:], its failure returns before any goroutine starts, in inverse-mix the fan-out covers rules[:len-1], is joined, a collected error returns, and only then rules[len-1] runs; (B3) N-M windows are S[0:n) and S[n:n+m) of the same list, guarded by n>0, m>0, n+m<=len(S) (== len(names) for selected); (B4) sorted stages obey the A3 loop discipline with the function's flag, and after a concurrent first stage `!flag && errors -> return` dominates stage two; (B5) sorted stages range a sorted source; collected errors surface. The argument uses only the WaitGroup contract and program order, so it holds under every schedule. Not decided: fairness, timing. In every goroutine of a concurrent stage no path from its entry to its end avoids the call that runs its rule (worker-on-every-path). The pool's mix / inverse / N-M methods call the engine method of their own name with their own arguments, each in its place: the stage sizes N and M are not swapped on the way (B7). (B8) the binary search that keeps the container's list sorted under incremental updates returns (insertion point, 0) on a miss. (B9) RuleEntity.Execute turns a panic of the rule body into its named error result: a faulting rule fails. The list the windows are cut from holds every loaded rule once only if both copies of the incremental merge keep list, name map and index in step (the merge model of C08-H2..H5, armed under B8). A removal installs a fresh, re-sorted list and never filters the published one in place (the full-build-and-removal rule of C04-O2, armed under B8). (B10) the pool's dispatchers by execution model call the engine method of the model asked for, whatever the number of rules. (B11) every sort of rule entities orders by descending salience and by nothing else.",
 		Assumptions: []string{"sync.WaitGroup: Wait returns only after the counter reached zero", "RuleEntity.Execute does not return before the rule finished"},
 		Trusted:     commonTrusted,
 	})
@@ -50,6 +50,11 @@ func runC05(c *Ctx) {
 	// the pool's dispatchers by execution model hand a request of the mix or inverse-mix model to that
 	// model's engine method, whatever the number of rules: a shortcut through the sort model for "one or
 	// two rules" has another error policy (the dispatch table of C16-Q5)
+	// "the highest", "the lowest" and the windows are positions in lists sorted by salience: every sort of
+	// rule entities in the product, the full build's included, orders by descending salience and by nothing
+	// else (C04-O1) -- a comparator that also looks at the name is no order at all
+	c.ruleO1("B11-lists-sorted-by-salience")
+	c.Min("B11-lists-sorted-by-salience", 10)
 	c.only = func(key string) bool { return strings.Contains(key, "WithSpecifiedEM#") }
 	c.ruleModelTable("B10-dispatch-runs-the-model-asked-for")
 	c.only = nil
